@@ -6,4 +6,6 @@ INVARIANT BackFillRefinesEnc
 INVARIANT NormalInv
 INVARIANT EncWellFormed
 INVARIANT UnknownLast
+INVARIANT DetIsPure
+INVARIANT NonDetValid
 CHECK_DEADLOCK FALSE
